@@ -439,6 +439,10 @@ var commentPool = []string{"hello", "note for later", "tag:value", "project:alph
 
 func (g *g5) comment() string {
 	c := commentPool[g.n(len(commentPool))]
+	if g.p(4) {
+		g.c.Count("comment.blank")
+		return ";" + strings.Repeat(" ", g.n(4))
+	}
 	switch g.n(6) {
 	case 0:
 		return ";" + c // no leading blank
